@@ -77,7 +77,8 @@ def gen_case(rng, opts=None):
         for a in t["attrs"]:
             if a in t["pkey"] or a in t["local"] or a in t["cacheonly"]:
                 continue
-            am["l_" + a] = a
+            # a secret may reach its local attribute through a Jinja template: it stays a secret
+            am["l_" + a] = ("{{ " + a + " }}") if (a in t["secret"] and rng.random() < 0.5) else a
         cdm["L" + t["name"]] = {"hermesType": t["name"], "attrsmapping": am}
     # in some cases a second source gives the first type other values for its secret attribute
     # (merge conflict, first value kept)
